@@ -1047,7 +1047,7 @@ class SparseArray:
         elif axis == 1:
             if keepdims:
                 arr = SparseArray.from_rows(
-                    [SparseLogicalVector.from_set({0} if i.all() else {}, 1) for i in rows]
+                    [SparseLogicalVector.from_set({0} if i.all() else set(), 1) for i in rows]
                 )
             else:
                 arr = SparseLogicalVector.from_set({i for i, j in enumerate(rows) if j.all()}, len(rows))
@@ -1067,7 +1067,7 @@ class SparseArray:
         elif axis == 1:
             if keepdims:
                 arr = SparseArray.from_rows(
-                    [SparseLogicalVector.from_set({0} if i.any() else {}, 1) for i in rows]
+                    [SparseLogicalVector.from_set({0} if i.any() else set(), 1) for i in rows]
                 )
             else:
                 arr = SparseLogicalVector.from_set({i for i, j in enumerate(rows) if j.any()}, len(rows))
